@@ -152,6 +152,7 @@ struct Seams {
 };
 extern Seams g;
 void ledger_reset();
+extern bool c_impl;                 // this run reaches the C implementations of mpt_meta_buffer / mpt_meta_new / mpt_node_new instead of libmpt++'s overrides (plan cfg "cimpl")
 extern bool registry_global;        // allocations made inside the type registry belong to the process, not to the run (set once by worlds that do not examine the registry)
 size_t ledger_live();               // number of live SUT-allocated blocks
 size_t ledger_live_bytes();
